@@ -1113,7 +1113,7 @@ def _as_floats(a, b):
         if isinstance(x, datetime.timedelta):
             return x.total_seconds()
         if isinstance(x, datetime.time):
-            return float((x.hour * 60 + x.minute) * 60 + x.second)
+            return float((x.hour * 60 + x.minute) * 60 + x.second + (x.microsecond / 1000000 if x.microsecond else 0))
         return float(x)
     return cv(a), cv(b)
 
@@ -1177,13 +1177,15 @@ def m_zero_underflow(case):
     return abs(q) <= Fraction(1, 2 ** 1075)
 
 
-def m_time_microseconds(case):
+def m_time_tzinfo(case):
+    """two datetime.time values with the same hour/minute/second/microsecond that are not equal (different tzinfo, or
+    naive vs aware): time_to_seconds ignores tzinfo"""
     c = _zero_case(case)
     if c is None:
         return False
     a, b = _ev(c["a"]), _ev(c["b"])
-    return isinstance(a, datetime.time) and isinstance(b, datetime.time) and a != b and \
-        (a.hour, a.minute, a.second) == (b.hour, b.minute, b.second)
+    return isinstance(a, datetime.time) and isinstance(b, datetime.time) and not scalar_equal(a, b) and \
+        (a.hour, a.minute, a.second, a.microsecond) == (b.hour, b.minute, b.second, b.microsecond)
 
 
 def m_date_vs_datetime(case):
@@ -1303,7 +1305,7 @@ MATCHERS = {
     "C19-K15-overflow-error": m_overflow_error,
     "C19-K17-zero-division-max-0": m_zero_division,
     "C19-K18-zero-for-nonempty-diff": m_zero_for_nonempty,
-    "C19-K19-time-microseconds-ignored": m_time_microseconds,
+    "C19-K19b-time-tzinfo-ignored": m_time_tzinfo,
     "C19-K20-date-vs-datetime": m_date_vs_datetime,
     "C19-K21-item-length-crash-on-dedupe-key-name": m_item_length_crash,
     "C19-K22-numpy-zero": m_numpy_zero,
@@ -1331,7 +1333,8 @@ def witnesses(ctx):
         ("K24 (operations hidden in _iterable_opcodes)", lambda: DeepDiff([1, 2, 3, 5, 6], [1, 2, 4, 3, 5, 6, 7], get_deep_distance=True).get("deep_distance", 0) == 0),
         ("K21 (AttributeError on a user key named like a delta key)",
          lambda: isinstance(call(lambda: DeepDiff({}, {"x": {"iterable_items_added_at_indexes": 5}}, get_deep_distance=True))[1], AttributeError)),
-        ("C19_time_zero_refuted", lambda: get_numeric_types_distance(datetime.time(0, 0, 0, 1), datetime.time(0, 0, 0, 2), 1.0) == 0),
+        ("K19b (tzinfo of a time ignored)", lambda: get_numeric_types_distance(
+            datetime.time(12, tzinfo=datetime.timezone.utc), datetime.time(12, tzinfo=datetime.timezone(datetime.timedelta(hours=5, minutes=30))), 1.0) == 0),
     ]
     replayed = []
     for name, f in W:
